@@ -70,7 +70,10 @@ class Opaque:
 
 class OpaqueExpr(Opaque):
     """Opaque stand-in for a GeomExpression / Surface operand of the MIP layer: it can be inverted; what comes back
-    is the induction hypothesis of `inverse` (denotation negated, still complement-free, still binary)."""
+    is the induction hypothesis of `inverse` (denotation negated, still complement-free, still binary).  Whether it is
+    a leaf or an operator node is not known: code that asks (isinstance) leaves the proved subset."""
+    unknown_kind = ('GeomExpression', 'Surface', 'list', 'tuple')
+
     def inverse(self):
         return OpaqueExpr(den=Not(self.den), **self.facts)
 
